@@ -19,7 +19,11 @@ def run(ctx):
     X.x3_same_root_and_seed(ctx)
     X.x4_verified_stop_respects_flag(ctx)
     X.x5_original_untouched(ctx)
-    ctx.floor("X1", 3)
+    # the retry with reverse rules relies on the forest extractor recovering every reverse form
+    from ..engines import forestrules as E
+    E.e3_key_function_agreement(ctx)
+    ctx.floor("E3", 6)
+    ctx.floor("X1", 4)
     ctx.floor("X2", 3)
     ctx.floor("X3", 6)
     ctx.floor("X4", 1)
